@@ -66,6 +66,14 @@ CHECKS["C05"] = dict(
     ref="DESIGN.md 8 (C05)",
     technique="exhaustive TLC enumeration of Quorum.tla + TLC trace validation of quorum probes (QuorumTrace.tla)")
 
+CHECKS["C14"] = dict(
+    text="PubSub.tla is the abstract subscription set with written-out glob matching; TLC explores every subscription state within the bound and exports "
+         "one operation path per state plus every short path; the Go driver replays them on a real two-member cluster over raw RESP connections, probes "
+         "with PUBLISH through both members and the PUBSUB introspection commands, reads every connection up to a PING barrier, and TLC (PubSubTrace.tla) "
+         "checks counts, exact deliveries, duplicates, introspection and per-publisher order under concurrent publishers.",
+    ref="DESIGN.md 5.5, 8 (C14)",
+    technique="TLC model checking of PubSub.tla + replay of TLC-exported paths on the real cluster + TLC trace validation (PubSubTrace.tla)")
+
 NOT_YET = {}
 
 def main():
